@@ -191,6 +191,10 @@ LoopBoxes:
 		}
 		boxType, boxSize := box.Type(), box.Size()
 		switch boxType {
+		case "moov":
+			if _, ok := firstTrakSttsEntries(box.(*MoovBox)); !ok {
+				return nil, fmt.Errorf("moov box without complete trak/mdia/minf/stbl/stts chain")
+			}
 		case "mdat":
 			if f.isFragmented {
 				if lastBoxType != "moof" {
@@ -254,7 +258,7 @@ func (f *File) AddChild(child Box, boxStartPos uint64) {
 		f.Ftyp = box
 	case *MoovBox:
 		f.Moov = box
-		if len(f.Moov.Trak.Mdia.Minf.Stbl.Stts.SampleCount) == 0 {
+		if nrSttsEntries, ok := firstTrakSttsEntries(box); ok && nrSttsEntries == 0 {
 			f.isFragmented = true
 			f.Init = NewMP4Init()
 			f.Init.AddChild(f.Ftyp)
@@ -316,6 +320,16 @@ func (f *File) AddChild(child Box, boxStartPos uint64) {
 		f.Mfra = box
 	}
 	f.Children = append(f.Children, child)
+}
+
+// firstTrakSttsEntries returns the number of stts entries of the first trak in moov.
+// ok is false if moov has no trak or the trak lacks some box of the mdia/minf/stbl/stts chain.
+func firstTrakSttsEntries(moov *MoovBox) (nrEntries int, ok bool) {
+	if moov == nil || moov.Trak == nil || moov.Trak.Mdia == nil || moov.Trak.Mdia.Minf == nil ||
+		moov.Trak.Mdia.Minf.Stbl == nil || moov.Trak.Mdia.Minf.Stbl.Stts == nil {
+		return 0, false
+	}
+	return len(moov.Trak.Mdia.Minf.Stbl.Stts.SampleCount), true
 }
 
 // startSegmentIfNeeded starts a new segment if there is none or if position match with sidx of tfra.
